@@ -25,10 +25,12 @@ type Config struct {
 	Trace        bool
 	MaxViolations int
 	MapOrders    bool // fork over iteration orders of small maps
+	ForceChoices []int // debugging: replay exactly this choice sequence (one path)
+	PreemptBound int  // >= 0: explore schedules with at most this many preemptions (no sleep sets); -1: all schedules with sleep sets
 }
 
 func DefaultConfig() Config {
-	return Config{Solver: "z3-new", QueryTimeout: 60000, Unwind: 80, MaxSteps: 2000000, MaxPaths: 5000000, MaxConcretize: 80, MaxViolations: 3, MapOrders: true}
+	return Config{Solver: "z3-new", QueryTimeout: 60000, Unwind: 80, MaxSteps: 2000000, MaxPaths: 5000000, MaxConcretize: 80, MaxViolations: 3, MapOrders: true, PreemptBound: -1}
 }
 
 type choicePoint struct {
@@ -53,6 +55,7 @@ type Violation struct {
 	Model   []ModelEntry      `json:"model"`
 	Choices []int             `json:"choices"`
 	VChoices []int            `json:"vchoices,omitempty"`
+	Concurrent bool           `json:"concurrent,omitempty"`
 	Extra   map[string]string `json:"extra,omitempty"`
 	Pos     string            `json:"pos,omitempty"`
 }
@@ -256,6 +259,9 @@ func (ex *Exec) take(idx int, constraint *smt.Term, m map[string]uint64) {
 
 func (ex *Exec) replayCP(kind string) *choicePoint {
 	cp := &ex.trace[ex.tpos]
+	if cp.kind == "?" {
+		cp.kind = kind
+	}
 	if cp.kind != kind {
 		panic(fmt.Sprintf("engine: nondeterministic replay at choice %d: recorded %s, now %s", ex.tpos, cp.kind, kind))
 	}
@@ -474,6 +480,7 @@ func (ex *Exec) modelEntries(m map[string]uint64) []ModelEntry {
 
 func (ex *Exec) addViolation(v Violation) {
 	ex.report.ViolationsN++
+	v.Concurrent = ex.rt != nil && len(ex.rt.gs) > 1
 	// keep one violation per label (first), up to MaxViolations labels
 	for _, o := range ex.report.Violations {
 		if o.Label == v.Label {
@@ -645,6 +652,9 @@ func (ex *Exec) Run(fn *ssa.Function, args []int64) *Report {
 	ex.report = &Report{Entry: fn.Name(), Args: args, Discharged: map[string]int{}, Covers: map[string]*CoverWitness{}, Functions: map[string]string{}, Stubs: map[string]int{}}
 	ex.harnessPkg = fn.Pkg
 	ex.trace = nil
+	for _, c := range ex.cfg.ForceChoices {
+		ex.trace = append(ex.trace, choicePoint{kind: "?", choice: c, forced: true})
+	}
 	ex.syncLen = 0
 	first := true
 	for {
@@ -670,7 +680,7 @@ func (ex *Exec) Run(fn *ssa.Function, args []int64) *Report {
 			ex.report.Truncated = true
 			break
 		}
-		if !ex.backtrack() {
+		if len(ex.cfg.ForceChoices) > 0 || !ex.backtrack() {
 			break
 		}
 	}
